@@ -25,6 +25,10 @@ type TermSearcher struct {
 	options     search.SearcherOptions
 	scorer      search.Scorer
 	queryTerm   string
+
+	// min is what Min() reports; non zero only when this searcher stands in
+	// for an optimized disjunction that required at least one of its clauses
+	min int
 }
 
 func NewTermSearcher(indexReader search.Reader, term, field string, boost float64, scorer search.Scorer,
@@ -115,7 +119,7 @@ func (s *TermSearcher) Close() error {
 }
 
 func (s *TermSearcher) Min() int {
-	return 0
+	return s.min
 }
 
 func (s *TermSearcher) DocumentMatchPoolSize() int {
